@@ -260,6 +260,8 @@ class BaseClient:
         expected_codes = wrap_with_container(expected_codes)
         wait_codes = wrap_with_container(wait_codes)
         if command:
+            if "\r" in command or "\n" in command:
+                raise ValueError("a command line must not contain a newline character")
             if censor_after:
                 # Censor the user's command
                 raw = command[:censor_after]
